@@ -237,12 +237,28 @@ Definition agree_record (k : kind) (v : sval) (bytes : list N) : bool :=
   | None => false
   end.
 
+(* serde's Deserialize for SystemTime builds Duration::new(secs, nanos), which carries nanos >= 10^9
+   into the seconds: the value handed back is the normalised one *)
+Fixpoint norm_times (v : sval) : sval :=
+  match v with
+  | VSome x => VSome (norm_times x)
+  | VVariant n x => VVariant n (norm_times x)
+  | VSeq l => VSeq (map norm_times l)
+  | VMap l => VMap (map norm_times l)
+  | VTuple l =>
+      match l with
+      | [VU W64 s; VU W32 n] => VTuple [VU W64 (s + n / 1000000000); VU W32 (n mod 1000000000)]
+      | _ => VTuple (map norm_times l)
+      end
+  | _ => v
+  end.
+
 (* arbitrary bytes: header layer exactly; typed layer see Msgpack.agree_decode *)
 Definition agree_decode_record (exact : bool) (as_kind : kind) (bs : list N)
            (r_header : option kind) (r_value : option sval) : bool :=
   kind_opt_eqb (from_record bs) r_header &&
   match decode_value (shape_of_kind as_kind) bs, r_value with
-  | Some v, Some v' => if exact then sval_eqb v v' else sval_sim v v'
+  | Some v, Some v' => if exact then sval_eqb v v' else sval_sim (norm_times v) v'
   | None, None => true
   | _, _ => negb exact
   end.
